@@ -926,6 +926,12 @@ func replay(site, witness string) {
 			checkADTS(aac.ADTSHeader{ID: byte(a), ObjectType: byte(b), SamplingFrequencyIndex: byte(c), ChannelConfig: byte(d),
 				HeaderLength: byte(e), PayloadLength: uint16(f), BufferFullness: uint16(g)}, hx.UnHex(junk), hx.UnHex(rest))
 		}
+	case strings.HasPrefix(witness, "bytes="): // decoder-range witnesses (rangechk.go)
+		if b := hx.UnHex(strings.TrimPrefix(witness, "bytes=")); site == "DecodeADTSHeader" {
+			checkADTSRange(b)
+		} else {
+			checkASCRange(b)
+		}
 	case strings.HasPrefix(witness, "esds="):
 		replayEsds(hx.UnHex(strings.TrimPrefix(witness, "esds=")))
 	case strings.HasPrefix(witness, "B:"):
